@@ -40,7 +40,8 @@ Laws ==
                         /\ CompositionLaw(Fs[a], Gens[b], c)
                         /\ (a = 1 => CanonicalLaw(Gens[b], c))
                         /\ (a = 1 => AutomorphismLaw(Fs[2], Fs[3], Gens[b], c))
-      [] job = "coord" -> (b = 0 => ExpansionsInverseLaw(GSets[a], c))
+      [] job = "coord" -> /\ (b = 0 => ExpansionsInverseLaw(GSets[a], c))
+                          /\ (b = 0 => \A f \in 1 .. 2 : MultiCompositionLaw(Fs[f], GSets[a], c))
 
 Emit ==
     CASE job = "hom" ->
